@@ -22,6 +22,7 @@ pub fn num(s: &str) -> u64 {
 fn handle(words: &[&str]) -> String {
     match words.first().copied() {
         Some("timer_rs") => timer_cmd::run(&words[1..]),
+        Some("timer_rs_kb") => timer_cmd::run_kb(&words[1..]),
         Some("regs_rs") => regs_cmd::run(&words[1..]),
         Some("lcd_rs") => lcd_cmd::run(&words[1..]),
         Some("kbd_rs") => kbd_cmd::run(&words[1..]),
